@@ -65,6 +65,7 @@ type FnExec struct {
 	abstracted []string
 	name       string
 	usedGhosts map[int]bool
+	implGhost  map[string]Binding
 }
 
 type modEntry struct {
